@@ -35,6 +35,9 @@ def run_entry(env, entry, cfg):
     for nm in gnames:
         # guards are documented to be 0/1; other guard values are covered by C08's own harness
         assume.append(z3.Or(vals[nm].t == 0, vals[nm].t == 1))
+    for nm in cfg.get("assume_bits") or ():
+        if nm in vals:
+            assume.append(z3.Or(vals[nm].t == 0, vals[nm].t == 1))
     if cfg.get("extra_assume"):
         assume += cfg["extra_assume"](vals)
     if entry.assume is not None:
